@@ -200,6 +200,11 @@ def oracle_child(arg):
                 deferred.append(c)
     for c in deferred:
         run(c)
+    # computed from scratch: everything the statements did is in place before a version is computed (in a correct
+    # implementation no version depends on when it was first computed)
+    from twosigma.memento.memento import MementoFunction as _MF
+
+    _MF.increment_global_fn_generation()
     return query(None, pkg, arg["names"])
 
 
